@@ -6,6 +6,7 @@ import (
 	"go/token"
 	"go/types"
 	"math/big"
+	"strings"
 
 	"gosym/smt"
 
@@ -145,6 +146,9 @@ func (ex *Exec) global(g *ssa.Global) *Obj {
 		o.V = ex.zero(elem)
 	}
 	ex.globals[g] = o
+	if ex.frozenAll && g.Pkg != nil && strings.HasPrefix(g.Pkg.Pkg.Path(), "github.com/google/go-tdx-guest/") && !strings.Contains(g.Pkg.Pkg.Path(), "/zzvp") {
+		o.Frozen = true
+	}
 	return o
 }
 
